@@ -51,3 +51,10 @@ package main
 //@   loop 1 invariant len(keys) > 0 ==> len(info.Sets) > 0
 //@   ensures [C17] FSWCOUNT[0] == old(FSWCOUNT[0])
 //@   ensures [C17,C20] result != 0 ==> LOGGED[0] > old(LOGGED[0])
+
+//@ func (*showCmd).Execute$1
+//@   requires 0 <= i && i < len(keys) && 0 <= j && j < len(keys)
+//@ func (*showCmd).Execute$3
+//@   requires 0 <= i && i < len(injectors) && 0 <= j && j < len(injectors)
+//@ func gather$2
+//@   requires 0 <= i && i < len(groups) && 0 <= j && j < len(groups)
